@@ -296,6 +296,7 @@ class Source:
         cands = [(it, []) for it in self.items]
         found = None
         for depth, (kind, pat) in enumerate(selectors):
+            pat, _, want_attr = pat.partition('\0')   # `fn NAME #[ATTR]` (extract.parse_selectors): NAME NUL whitespace-free attribute
             matches = []
             for it, parents in cands:
                 if it.kind != kind:
@@ -303,7 +304,7 @@ class Source:
                 if kind == 'impl':
                     if re.search(pat, it.header):
                         matches.append((it, parents))
-                elif it.name == pat:
+                elif it.name == pat and (not want_attr or any(''.join(a.split()) == want_attr for a in it.attrs)):
                     matches.append((it, parents))
             if not matches:
                 raise LookupError('no %s %s in %s' % (kind, pat, self.path))
